@@ -350,6 +350,8 @@ func (l *PartitionLog) prepareFlush() (*SegmentArtifact, error) {
 	}
 	artifact, err := BuildSegment(l.cfg.Segment, batches, time.Now())
 	if err != nil {
+		// Put the drained batches back so a later flush retries them.
+		l.buffer.Prepend(batches)
 		return nil, fmt.Errorf("build segment: %w", err)
 	}
 	l.flushing = true
@@ -394,6 +396,10 @@ func (l *PartitionLog) uploadFlush(ctx context.Context, artifact *SegmentArtifac
 	if err := g.Wait(); err != nil {
 		l.mu.Lock()
 		l.flushing = false
+		// Nothing reached S3: return the drained batches to the front of the
+		// buffer so the next flush (including one already waiting in Flush)
+		// uploads them instead of silently dropping acknowledged data.
+		l.buffer.Prepend(l.flushingBatches)
 		l.flushingBatches = nil
 		l.flushCond.Broadcast()
 		l.mu.Unlock()
